@@ -470,6 +470,18 @@ theorem ext_step {s s' : St} {a : Act} (hs : step s a = some s') : Ext s s' := b
         · injection hs with hs; subst hs; ext_upd
         · injection hs with hs; subst hs
           refine Ext.trans ?_ (ext_startSend _ _ _); ext_upd
+  | queueUnsendable c =>
+    simp only [step] at hs
+    split at hs
+    · cases hs
+    · split at hs
+      · split at hs
+        · cases hs
+        · injection hs with hs; subst hs; ext_upd
+      · split at hs
+        · injection hs with hs; subst hs; ext_upd
+        · injection hs with hs; subst hs
+          exact ⟨Nat.le_succ _, fun h => h, fun _ h => h, fun _ h => Or.inl h⟩
   | cancel c =>
     simp only [step] at hs
     split at hs
@@ -547,11 +559,13 @@ structure GO (s : St) (x : List Nat) : Prop where
   idsLe : ∀ p ∈ s.sent, p.1 ≤ s.nextId
   doneSent : s.done = true → s.sent = [] ∧ s.offered = []
   droppedCtx : ∀ c ∈ s.dropped, c ∈ s.ctxDone
-  srcNone : ∀ d ∈ s.delivered, d.src = none → d.res = .connErr
+  srcNone : ∀ d ∈ s.delivered, d.src = none →
+    d.res = .connErr ∨ (d.res = .fatal ∧ d.call ∈ s.unsendable)
   sentWrote : ∀ p ∈ s.sent, ∀ c, (c, p.1) ∈ s.wroteAs ↔ c ∈ p.2.calls
   wroteLe : ∀ p ∈ s.wroteAs, p.2 ≤ s.nextId
   dlvWrote : ∀ d ∈ s.delivered, ∀ id, d.src = some id → (d.call, id) ∈ s.wroteAs
   wroteOnce : ∀ c, s.offered.count c + written s c ≤ s.handed.count c
+  unsFatal : ∀ c ∈ s.unsendable, Dlv.mk c .fatal none ∈ s.delivered
 
 /-- appending deliveries for exactly the calls `y` taken from the carry -/
 theorem go_deliver {s : St} {x y : List Nat} (ds : List Dlv) (h : GO s (y ++ x))
@@ -570,7 +584,7 @@ theorem go_deliver {s : St} {x y : List Nat} (ds : List Dlv) (h : GO s (y ++ x))
   srcNone d hd := by
     rcases List.mem_append.1 hd with hd | hd
     · exact h.srcNone d hd
-    · exact hnone d hd
+    · exact fun hn => Or.inl (hnone d hd hn)
   sentWrote := h.sentWrote
   wroteLe := h.wroteLe
   dlvWrote d hd := by
@@ -578,6 +592,7 @@ theorem go_deliver {s : St} {x y : List Nat} (ds : List Dlv) (h : GO s (y ++ x))
     · exact h.dlvWrote d hd
     · exact hsrc d hd
   wroteOnce := h.wroteOnce
+  unsFatal c hc := List.mem_append_left _ (h.unsFatal c hc)
 
 theorem go_deliverItem {s : St} {x : List Nat} (it : Item) (r : Res) (src : Option Nat)
     (h : GO s (it.calls ++ x)) (hnone : src = none → r = .connErr)
@@ -616,7 +631,7 @@ theorem go_failConn {s : St} {x : List Nat} (h : GO s x) : GO (failConn s) x := 
       srcNone := fun d hd hn => by
         rcases List.mem_append.1 hd with hd | hd
         · exact h.srcNone d hd hn
-        · exact (failDlv_none s d hd).2
+        · exact Or.inl (failDlv_none s d hd).2
       sentWrote := fun p hp => by cases hp
       wroteLe := h.wroteLe
       dlvWrote := fun d hd id hid => by
@@ -625,7 +640,8 @@ theorem go_failConn {s : St} {x : List Nat} (h : GO s x) : GO (failConn s) x := 
         · have := (failDlv_none s d hd).1; rw [this] at hid; cases hid
       wroteOnce := fun c => by
         have := h.wroteOnce c
-        simp only [written, List.count_nil] at *; omega }
+        simp only [written, List.count_nil] at *; omega
+      unsFatal := fun c hc => List.mem_append_left _ (h.unsFatal c hc) }
 
 theorem lookupSent_some {s : St} {id : Nat} {it : Item} (h : lookupSent s id = some it) :
     s.sent.find? (·.1 == id) = some (id, it) := by
@@ -656,6 +672,7 @@ theorem go_eraseSent {s : St} {x : List Nat} {id : Nat} {it : Item} (h : GO s x)
   wroteLe := h.wroteLe
   dlvWrote := h.dlvWrote
   wroteOnce := h.wroteOnce
+  unsFatal := h.unsFatal
 
 theorem go_sendFailed {s : St} {x : List Nat} (snd : Snd) (h : GO s x) : GO (sendFailed s snd) x := by
   simp only [sendFailed]
@@ -718,11 +735,12 @@ theorem go_regSend {s : St} {x : List Nat} (w : Who) (it : Item) (h : GO s (it.c
     have := hfresh c
     rw [written_regSend]
     simp only [regSend] at *; omega
+  unsFatal := h.unsFatal
 
 theorem go_senderAddN {s : St} {x : List Nat} (n : Nat) (w : Who) (h : GO s x) :
     GO (senderAddN s n w) x :=
   ⟨h.cnt, h.handedNodup, h.idsNodup, h.idsLe, h.doneSent, h.droppedCtx,
-      h.srcNone, h.sentWrote, h.wroteLe, h.dlvWrote, h.wroteOnce⟩
+      h.srcNone, h.sentWrote, h.wroteLe, h.dlvWrote, h.wroteOnce, h.unsFatal⟩
 
 theorem go_senderAdd {s : St} {x : List Nat} (w : Who) (h : GO s x) : GO (senderAdd s w) x := by
   rw [senderAdd_eq]; exact go_senderAddN _ _ h
@@ -735,7 +753,7 @@ theorem go_startSend {s : St} {x : List Nat} (w : Who) (it : Item) (h : GO s (it
   rw [startSend_eq]
   split
   · exact ⟨h1.cnt, h1.handedNodup, h1.idsNodup, h1.idsLe, h1.doneSent, h1.droppedCtx,
-      h1.srcNone, h1.sentWrote, h1.wroteLe, h1.dlvWrote, h1.wroteOnce⟩
+      h1.srcNone, h1.sentWrote, h1.wroteLe, h1.dlvWrote, h1.wroteOnce, h1.unsFatal⟩
   · exact go_senderAddN _ _ h1
 
 theorem go_writerLoop {s : St} {x : List Nat} (h : GO s x) : GO (writerLoop s) x := by
@@ -744,7 +762,7 @@ theorem go_writerLoop {s : St} {x : List Nat} (h : GO s x) : GO (writerLoop s) x
   · exact h
   · split
     · exact ⟨h.cnt, h.handedNodup, h.idsNodup, h.idsLe, h.doneSent, h.droppedCtx, h.srcNone,
-        h.sentWrote, h.wroteLe, h.dlvWrote, h.wroteOnce⟩
+        h.sentWrote, h.wroteLe, h.dlvWrote, h.wroteOnce, h.unsFatal⟩
     · rename_i hnd
       split
       · exact h
@@ -772,7 +790,8 @@ theorem go_writerLoop {s : St} {x : List Nat} (h : GO s x) : GO (writerLoop s) x
             wroteOnce := fun c => by
               have := h.wroteOnce c
               have := count_take_drop s.offered s.queueSize c
-              simp only [written] at *; omega }
+              simp only [written] at *; omega
+            unsFatal := h.unsFatal }
         · intro c
           have := h.wroteOnce c
           have := count_take_drop s.offered s.queueSize c
@@ -783,19 +802,19 @@ theorem go_finishSend {s : St} {x : List Nat} (w : Who) (h : GO s x) : GO (finis
   simp only [finishSend]
   split
   · exact go_writerLoop ⟨h.cnt, h.handedNodup, h.idsNodup, h.idsLe, h.doneSent, h.droppedCtx,
-      h.srcNone, h.sentWrote, h.wroteLe, h.dlvWrote, h.wroteOnce⟩
+      h.srcNone, h.sentWrote, h.wroteLe, h.dlvWrote, h.wroteOnce, h.unsFatal⟩
   · exact ⟨h.cnt, h.handedNodup, h.idsNodup, h.idsLe, h.doneSent, h.droppedCtx,
-      h.srcNone, h.sentWrote, h.wroteLe, h.dlvWrote, h.wroteOnce⟩
+      h.srcNone, h.sentWrote, h.wroteLe, h.dlvWrote, h.wroteOnce, h.unsFatal⟩
 
 theorem go_setPhase {s : St} {x : List Nat} (w : Who) (p : Phase) (h : GO s x) :
     GO (setPhase s w p) x :=
   ⟨h.cnt, h.handedNodup, h.idsNodup, h.idsLe, h.doneSent, h.droppedCtx,
-      h.srcNone, h.sentWrote, h.wroteLe, h.dlvWrote, h.wroteOnce⟩
+      h.srcNone, h.sentWrote, h.wroteLe, h.dlvWrote, h.wroteOnce, h.unsFatal⟩
 
 theorem go_releaseWriteM {s : St} {x : List Nat} (h : GO s x) : GO (releaseWriteM s) x := by
   simp only [releaseWriteM]
   split <;> exact ⟨h.cnt, h.handedNodup, h.idsNodup, h.idsLe, h.doneSent, h.droppedCtx,
-      h.srcNone, h.sentWrote, h.wroteLe, h.dlvWrote, h.wroteOnce⟩
+      h.srcNone, h.sentWrote, h.wroteLe, h.dlvWrote, h.wroteOnce, h.unsFatal⟩
 
 theorem go_senderAtM {s : St} {x : List Nat} (w : Who) (h : GO s x) : GO (senderAtM s w) x := by
   simp only [senderAtM]
@@ -838,23 +857,24 @@ theorem go_finishFrame {s : St} {x : List Nat} {id : Nat} {it : Item} {f : Frame
       sentWrote := h.sentWrote
       wroteLe := h.wroteLe
       dlvWrote := h.dlvWrote
-      wroteOnce := h.wroteOnce }
+      wroteOnce := h.wroteOnce
+      unsFatal := h.unsFatal }
   · first | rw [if_neg hf] | skip
     · split
       · have h2 := go_failConn (s := { s with delivered := s.delivered ++ frameDlv id it f, reader := .exited })
           (x := x) ⟨hdl.cnt, hdl.handedNodup, hdl.idsNodup, hdl.idsLe, hdl.doneSent, hdl.droppedCtx,
-            hdl.srcNone, hdl.sentWrote, hdl.wroteLe, hdl.dlvWrote, hdl.wroteOnce⟩
+            hdl.srcNone, hdl.sentWrote, hdl.wroteLe, hdl.dlvWrote, hdl.wroteOnce, hdl.unsFatal⟩
         exact ⟨h2.cnt, h2.handedNodup, h2.idsNodup, h2.idsLe, h2.doneSent, h2.droppedCtx,
-          h2.srcNone, h2.sentWrote, h2.wroteLe, h2.dlvWrote, h2.wroteOnce⟩
+          h2.srcNone, h2.sentWrote, h2.wroteLe, h2.dlvWrote, h2.wroteOnce, h2.unsFatal⟩
       · exact ⟨hdl.cnt, hdl.handedNodup, hdl.idsNodup, hdl.idsLe, hdl.doneSent, hdl.droppedCtx,
-          hdl.srcNone, hdl.sentWrote, hdl.wroteLe, hdl.dlvWrote, hdl.wroteOnce⟩
+          hdl.srcNone, hdl.sentWrote, hdl.wroteLe, hdl.dlvWrote, hdl.wroteOnce, hdl.unsFatal⟩
 
 /-! ## §4 the reader's hand; per-action preservation; induction over `run` -/
 
 /-- re-pack a `GO` for a state that differs only in fields `GO` does not mention -/
 macro "go_repack " h:term : term =>
   `(⟨($h).cnt, ($h).handedNodup, ($h).idsNodup, ($h).idsLe, ($h).doneSent, ($h).droppedCtx,
-     ($h).srcNone, ($h).sentWrote, ($h).wroteLe, ($h).dlvWrote, ($h).wroteOnce⟩)
+     ($h).srcNone, ($h).sentWrote, ($h).wroteLe, ($h).dlvWrote, ($h).wroteOnce, ($h).unsFatal⟩)
 
 /-- The ownership/correlation invariant of a state at rest (between two actions). -/
 structure GR (s : St) : Prop where
@@ -1034,6 +1054,7 @@ theorem go_hand {s : St} {x : List Nat} {c : Nat} (h : GO s x) (hc : c ∉ s.han
   wroteOnce c' := by
     have := h.wroteOnce c'
     simp only [written, List.count_append] at *; omega
+  unsFatal := h.unsFatal
 
 theorem go_fresh {s : St} {x : List Nat} {c : Nat} (h : GO s x) (hc : c ∉ s.handed) :
     s.offered.count c = 0 ∧ written s c = 0 := by
@@ -1082,7 +1103,8 @@ theorem gr_queueBatched {s s' : St} {c : Nat} (h : GR s) (hs : step s (.queueBat
             simp only [written, List.count_append, List.count_cons, List.count_nil] at *
             by_cases e : c = c'
             · subst e; simp; omega
-            · simp [e]; omega }
+            · simp [e]; omega
+          unsFatal := h1.unsFatal }
 
 theorem gr_queueDirect {s s' : St} {c : Nat} (h : GR s) (hs : step s (.queueDirect c) = some s') :
     GR s' := by
@@ -1115,7 +1137,8 @@ theorem gr_queueDirect {s s' : St} {c : Nat} (h : GR s) (hs : step s (.queueDire
           sentWrote := h1.sentWrote
           wroteLe := h1.wroteLe
           dlvWrote := h1.dlvWrote
-          wroteOnce := h1.wroteOnce }
+          wroteOnce := h1.wroteOnce
+          unsFatal := h1.unsFatal }
     · split at hs
       · injection hs with hs; subst hs
         refine gr_neutral h ?_ rfl (fun _ hp => hp)
@@ -1132,6 +1155,77 @@ theorem gr_queueDirect {s s' : St} {c : Nat} (h : GR s) (hs : step s (.queueDire
         by_cases e : c = c'
         · subst e; simp; omega
         · simp [e]; omega
+
+theorem gr_queueUnsendable {s s' : St} {c : Nat} (h : GR s)
+    (hs : step s (.queueUnsendable c) = some s') : GR s' := by
+  simp only [step] at hs
+  split at hs
+  · cases hs
+  · rename_i hc
+    have hc : c ∉ s.handed := by simpa using hc
+    have h1 := go_hand h.go hc
+    split at hs
+    · rename_i hctx
+      split at hs
+      · cases hs
+      · injection hs with hs; subst hs
+        refine gr_neutral h ?_ rfl (fun _ hp => hp)
+        exact {
+          cnt := fun c' => by
+            have := h1.cnt c'
+            simp only [base, List.count_append, List.count_cons, List.count_nil] at *; omega
+          handedNodup := h1.handedNodup
+          idsNodup := h1.idsNodup
+          idsLe := h1.idsLe
+          doneSent := h1.doneSent
+          droppedCtx := fun c' hc' => by
+            rcases List.mem_append.1 hc' with hc' | hc'
+            · exact h.go.droppedCtx c' hc'
+            · simp only [List.mem_singleton] at hc'; subst hc'; simpa using hctx
+          srcNone := h1.srcNone
+          sentWrote := h1.sentWrote
+          wroteLe := h1.wroteLe
+          dlvWrote := h1.dlvWrote
+          wroteOnce := h1.wroteOnce
+          unsFatal := h1.unsFatal }
+    · split at hs
+      · injection hs with hs; subst hs
+        refine gr_neutral h ?_ rfl (fun _ hp => hp)
+        refine go_deliver (y := [c]) _ h1 (fun c' => dcount_singleton _ _ _ _) ?_ ?_
+        · intro d hd _; simp only [List.mem_singleton] at hd; subst hd; rfl
+        · intro d hd id hid; simp only [List.mem_singleton] at hd; subst hd; cases hid
+      · injection hs with hs; subst hs
+        refine gr_neutral h ?_ rfl (fun _ hp => hp)
+        exact {
+          cnt := fun c' => by
+            have := h1.cnt c'
+            have := dcount_singleton c Res.fatal none c'
+            simp only [base, dcount_append, List.count_append, List.count_cons, List.count_nil] at *
+            omega
+          handedNodup := h1.handedNodup
+          idsNodup := h1.idsNodup
+          idsLe := fun p hp => Nat.le_succ_of_le (h.go.idsLe p hp)
+          doneSent := h1.doneSent
+          droppedCtx := h1.droppedCtx
+          srcNone := fun d hd hn => by
+            rcases List.mem_append.1 hd with hd | hd
+            · rcases h.go.srcNone d hd hn with h2 | h2
+              · exact Or.inl h2
+              · exact Or.inr ⟨h2.1, List.mem_append_left _ h2.2⟩
+            · simp only [List.mem_singleton] at hd; subst hd
+              exact Or.inr ⟨rfl, List.mem_append_right _ (List.mem_singleton.2 rfl)⟩
+          sentWrote := h1.sentWrote
+          wroteLe := fun p hp => Nat.le_succ_of_le (h.go.wroteLe p hp)
+          dlvWrote := fun d hd id hid => by
+            rcases List.mem_append.1 hd with hd | hd
+            · exact h.go.dlvWrote d hd id hid
+            · simp only [List.mem_singleton] at hd; subst hd; cases hid
+          wroteOnce := h1.wroteOnce
+          unsFatal := fun c' hc' => by
+            rcases List.mem_append.1 hc' with hc' | hc'
+            · exact List.mem_append_left _ (h.go.unsFatal c' hc')
+            · simp only [List.mem_singleton] at hc'; subst hc'
+              exact List.mem_append_right _ (List.mem_singleton.2 rfl) }
 
 theorem gr_cancel {s s' : St} {c : Nat} (h : GR s) (hs : step s (.cancel c) = some s') : GR s' := by
   simp only [step] at hs
@@ -1184,7 +1278,8 @@ theorem gr_cancel {s s' : St} {c : Nat} (h : GR s) (hs : step s (.cancel c) = so
         have := h.go.wroteOnce c'
         have : (s.offered.filter (· != c)).count c' ≤ s.offered.count c' :=
           List.Sublist.count_le _ List.filter_sublist
-        simp only [written] at *; omega }
+        simp only [written] at *; omega
+      unsFatal := h.go.unsFatal }
 
 /-- fields of no concern to `GR` may be set freely (here: mWait, armed) -/
 theorem gr_irr {s : St} (h : GR s) (mw : List MW) (a : Bool) :
@@ -1303,6 +1398,7 @@ theorem gr_step {s s' : St} {a : Act} (h : GR s) (hs : step s a = some s') : GR 
   cases a with
   | queueBatched c => exact gr_queueBatched h hs
   | queueDirect c => exact gr_queueDirect h hs
+  | queueUnsendable c => exact gr_queueUnsendable h hs
   | cancel c => exact gr_cancel h hs
   | write w last r => exact gr_write h hs
   | arm w r => exact gr_arm h hs
@@ -1324,7 +1420,8 @@ theorem gr_init (q : Nat) : GR (init q) where
     sentWrote := fun p hp => by cases hp
     wroteLe := fun p hp => by cases hp
     dlvWrote := fun d hd => by cases hd
-    wroteOnce := fun c => Nat.le_refl _ }
+    wroteOnce := fun c => Nat.le_refl _
+    unsFatal := fun c hc => by cases hc }
   held id it f hh := by cases hh
 
 theorem gr_run {s s' : St} (as : List Act) (h : GR s) (hr : run s as = some s') : GR s' := by
@@ -2735,6 +2832,36 @@ theorem gdr_queueDirect {s s' : St} {c : Nat} (h : GD s) (hr : Rest s)
           injection e with e; subst e
           exact List.mem_append_right _ (List.mem_singleton.2 rfl)
 
+theorem gdr_queueUnsendable {s s' : St} {c : Nat} (h : GD s) (hr : Rest s)
+    (hs : step s (.queueUnsendable c) = some s') : GD s' ∧ Rest s' := by
+  simp only [step] at hs
+  split at hs
+  · cases hs
+  · split at hs
+    · split at hs
+      · cases hs
+      · injection hs with hs; subst hs
+        exact ⟨gd_handed h c _ _ _, hr⟩
+    · split at hs
+      · injection hs with hs; subst hs
+        exact ⟨gd_handed h c _ _ _, hr⟩
+      · injection hs with hs; subst hs
+        refine ⟨?_, hr⟩
+        exact {
+          whoNodup := h.whoNodup
+          writerSnd := h.writerSnd
+          directHanded := fun x hx c' hw => List.mem_append_left _ (h.directHanded x hx c' hw)
+          queued := h.queued
+          qNodup := h.qNodup
+          readerQ := h.readerQ
+          excl := h.excl
+          bound := Nat.le_succ_of_le h.bound
+          eq := fun hl => h.eq (live_succ hl s rfl rfl).1
+          fifo := fun hl => h.fifo (live_succ hl s rfl rfl).1
+          armPos := fun hl => h.armPos (live_succ hl s rfl rfl).1
+          i1 := fun hl => h.i1 (live_succ hl s rfl rfl).1
+          i2 := fun hl => h.i2 (live_succ hl s rfl rfl).1 }
+
 theorem gdr_cancel {s s' : St} {c : Nat} (h : GD s) (hr : Rest s)
     (hs : step s (.cancel c) = some s') : GD s' ∧ Rest s' := by
   simp only [step] at hs
@@ -2976,6 +3103,7 @@ theorem good_step {s s' : St} {a : Act} (h : Good s) (hs : step s a = some s') :
     cases a with
     | queueBatched c => exact gdr_queueBatched h.gd h.rest hs
     | queueDirect c => exact gdr_queueDirect h.gd h.rest hs
+    | queueUnsendable c => exact gdr_queueUnsendable h.gd h.rest hs
     | cancel c => exact gdr_cancel h.gd h.rest hs
     | write w last r => exact gdr_write h.gd h.rest hs
     | arm w r => exact gdr_arm h.gr h.gd hs
